@@ -187,7 +187,10 @@ def main(tier):
             r = b""
         else:
             r = rng.choice([b"text\n", b"\ntext\n", b"\n\ntext\n", d + b"\n", d + b"\nx\n" + d + b"\n", b"x\n" + d + b"\r\nmore\n", b"\r\ntext", BOM + b"text\n",
-                            b"# h\n\n" + d + b"\n", b"    code\n", b"> q\n> q\n", b"\ttab\n", b"[a]: /u\n\n[a]\n"])
+                            b"# h\n\n" + d + b"\n", b"    code\n", b"> q\n> q\n", b"\ttab\n", b"[a]: /u\n\n[a]\n",
+                            # a first paragraph that begins with an ESCAPED block marker: the CommonMark formatter must
+                            # still know it is at the beginning of a line after the verbatim front matter
+                            b"\\- not a list\n", b"1986\\. year\n", b"\\# no heading\n", b"\\> no quote\n", b"&#45; x\n", b"7\\) x\n", b"\\+ a\n\n\\= b\n"])
         o = docgen.gen_opts(rng, exclude=("front_matter_delimiter", "sourcepos", "experimental_minimize_commonmark"), strings=False) if rng.random() < 0.6 else {}
         pairs.append((d, f, r, o))
     # what the spec says about f ++ r
@@ -208,24 +211,35 @@ def main(tier):
         meta.append((d, f, r, o, fm_s, rest_s, k, len(jobs)))
         jobs += [f"md cm {with_d} {hx(doc)}", f"md html {with_d} {hx(doc)}", f"md html {without} {hx(rest_s)}",
                  f"md html {with_d_sp} {hx(doc)}", f"md html {without_sp} {hx(rest_s)}",
-                 f"lines {with_d} {hx(doc)}", f"lines {without} {hx(rest_s)}", f"md xml {with_d} {hx(doc)}"]
+                 f"lines {with_d} {hx(doc)}", f"lines {without} {hx(rest_s)}", f"md xml {with_d} {hx(doc)}", f"md cm {without} {hx(rest_s)}"]
     res = vlib.run_lines(vh, jobs)
     lc = vlib.run_lines(drv, [f"spec_line_count {hx(m[4])}" for m in meta])
     rb = vlib.run_lines(drv, [f"rest_has_bom {hx(m[5])}" for m in meta])
     ne2e = 0
     e2e_fail = {}
+    cr_state = []
     for (d, f, r, o, fm_s, rest_s, k, j), lcount, hasbom in zip(meta, lc, rb):
-        cm, h, h_r, hsp, hsp_r, ln, ln_r, xml = res[j:j + 8]
+        cm, h, h_r, hsp, hsp_r, ln, ln_r, xml, cm_r = res[j:j + 9]
         case = {"delimiter": hx(d), "front_matter": hx(f), "rest": hx(r), "opts": docgen.opts_token(o), "spec_fm": hx(fm_s), "fm_class": k}
         c.count(b"e2e:" + d + f + r + docgen.opts_token(o).encode(), True)
         ne2e += 1
         fails = []
-        if not all(x.startswith("ok") for x in (cm, h, h_r, hsp, hsp_r, ln, ln_r, xml)):
-            fails.append(("a render or parse stage does not return normally", {"observed": [x[:200] for x in (cm, h, h_r, hsp, hsp_r, ln, ln_r, xml) if not x.startswith("ok")]}))
+        if not all(x.startswith("ok") for x in (cm, h, h_r, hsp, hsp_r, ln, ln_r, xml, cm_r)):
+            fails.append(("a render or parse stage does not return normally", {"observed": [x[:200] for x in (cm, h, h_r, hsp, hsp_r, ln, ln_r, xml, cm_r) if not x.startswith("ok")]}))
         else:
             un = lambda x: unhx(x.split()[1]) if len(x.split()) > 1 else b""
             if not un(cm).startswith(fm_s):
                 fails.append(("CommonMark output does not start with the front matter byte for byte", {"cm": hx(un(cm)[:len(fm_s) + 20])}))
+            elif un(cm) not in (fm_s + un(cm_r), fm_s + b"\n" + un(cm_r), fm_s + b"\n\n" + un(cm_r)):
+                # the rest is formatted as on its own, after the verbatim front matter and at most a blank line (a first
+                # block that asks for one, the final line end of an unterminated closing line)
+                if fm_s.endswith(b"\r"):
+                    # known (C20-b): the formatter's literal output only takes LF for a line end, so after front matter
+                    # whose last line ends in a bare CR it believes it is in the middle of a line
+                    cr_state.append(dict(case, cm=hx(un(cm)[-200:]), cm_rest=hx(un(cm_r)[-200:])))
+                else:
+                    fails.append(("CommonMark output of front matter ++ rest is not the front matter followed by the CommonMark output of the rest alone",
+                                  {"cm": hx(un(cm)), "cm_rest": hx(un(cm_r))}))
             if un(h) != un(h_r):
                 fails.append(("HTML of front matter ++ rest differs from the HTML of the rest alone", {"html": hx(un(h)), "html_rest": hx(un(h_r))}))
             if b"FMMARK" in un(h) and b"FMMARK" not in rest_s:
@@ -245,7 +259,10 @@ def main(tier):
                 c.known_hit("bom_after_front_matter", cs)
             else:
                 classify(d, f + r, what, cs, k)
-    c.cov["spec_checks"]["e2e: cm starts with fm; html = html(rest); sourcepos shifted; line log = line log(rest); xml one element"] = {"pairs": ne2e, "failed_clauses_by_class": e2e_fail}
+    for cs in cr_state[:3]:
+        c.known_hit("cm_line_state_after_cr_front_matter", cs)
+    e2e_fail["cm_line_state_after_cr_front_matter"] = len(cr_state)
+    c.cov["spec_checks"]["e2e: cm = fm ++ cm(rest); html = html(rest); sourcepos shifted; line log = line log(rest); xml one element"] = {"pairs": ne2e, "failed_clauses_by_class": e2e_fail}
 
     # look-alikes: the spec finds no front matter => everything renders as with no delimiter configured
     looks = []
